@@ -218,7 +218,10 @@ SUITES = {
                        sys_suite("c05-sys-faults", "c05_ok", {"n": 25, "shards": 6}, {"n": 150, "shards": 16}, extra=["--faults"]),
                        vsys_suite("c05-vsys", "vc05_ok", {"n": 25, "shards": 4}, {"n": 200, "shards": 16})]},
     "C06": {"suites": [sys_suite("c06-sys", "c06_ok", {"n": 25, "shards": 10}, {"n": 200, "shards": 16})]},
-    "C20": {"suites": [sys_suite("c20-sys", "c20_ok", {"n": 25, "shards": 10}, {"n": 200, "shards": 16}, extra=["--faults"])]},
+    "C20": {"suites": [sys_suite("c20-sys", "c20_ok", {"n": 25, "shards": 10}, {"n": 200, "shards": 16}, extra=["--faults"]),
+                       # every placement of one fault (quick) and of two faults (thorough) over the scheduler's calls of base scenarios
+                       sys_suite("c20-sys-exhaustive", "c20_ok", {"n": 0, "shards": 6, "args": ["--exhaustive", "3"]},
+                                 {"n": 0, "shards": 16, "args": ["--exhaustive", "2", "--pairs"]}, length=100)]},
     "C07": {"suites": [
         hook_suite("c07-hook", {"n": 40, "shards": 8}, {"n": 400, "shards": 16}),
         hook_suite("c07-hook-faults", {"n": 30, "shards": 4}, {"n": 300, "shards": 16}, extra=["--faults"]),
